@@ -925,6 +925,13 @@ static int32 dtlsResendFlight(ssl_t *ssl, psBuf_t *out)
         We are dealing with a CHANGE_CIPHER_SPEC flight resend so we must
         revert to the old write cipher
  */
+        if (ssl->oencrypt == NULL)
+        {
+            /* No previous write state was ever saved: there is nothing to
+               revert to and the record layer callbacks would be NULL. */
+            psTraceErrr("DTLS resend without a saved write cipher\n");
+            return PS_FAILURE;
+        }
         dtlsRevertWriteCipher(ssl);
 /*
         It is also necessary to make sure rsn is updated to the largest
